@@ -515,6 +515,23 @@ fn blocks(c: &Case, cnt: &mut Counts, n: &[u8], h: &[u8], wfind: i64, wrfind: i6
     c.check(cnt, "twoway::FinderRev::rfind", guard(|| opt_to_i(twoway::FinderRev::new(n).rfind(h, n))), wrfind);
     c.check(cnt, "rabinkarp::Finder::find", guard(|| opt_to_i(rabinkarp::Finder::new(n).find(h, n))), wfind);
     c.check(cnt, "rabinkarp::FinderRev::rfind", guard(|| opt_to_i(rabinkarp::FinderRev::new(n).rfind(h, n))), wrfind);
+    // constructors report unsupported inputs by returning None: pair offsets out of range or equal
+    {
+        let nl = n.len();
+        let probes = [(0usize, nl), (nl, 0), (nl.saturating_sub(1), nl), (nl, nl + 1), (0, 0), (nl.saturating_sub(1), nl.saturating_sub(1)), (0, 255), (255, 0), (0, nl.saturating_sub(1)), (nl.saturating_sub(1), 0)];
+        for (a, b) in probes {
+            if a > 255 || b > 255 {
+                continue;
+            }
+            let valid = a < nl && b < nl && a != b;
+            cnt.add("mm_exec", 1);
+            match guard(|| packedpair::Pair::with_indices(n, a as u8, b as u8).is_some()) {
+                Err(m) => c.rep.finding(Class::Panic, &format!("Pair::with_indices({a},{b}) panicked: {m}"), c.ctx("Pair::with_indices")),
+                Ok(acc) if acc != valid => c.rep.finding(Class::Result, &format!("Pair::with_indices({a},{b}) on a needle of {nl} bytes: accepted={acc}, but the offsets are {}", if valid { "distinct and in range" } else { "out of range or equal" }), c.ctx("Pair::with_indices")),
+                _ => {}
+            }
+        }
+    }
     #[cfg(feature = "alloc")]
     {
         use memchr::arch::all::shiftor;
